@@ -80,7 +80,7 @@ CHECKS = {
    text=("Proved in Lean over an abstract ZMod n-module with arbitrary HMAC / serialisation / fingerprint functions: N(CKDpriv(x,i)) = CKDpub(N(x),i) "
          "for every non-hardened i including chain code, depth, parent fingerprint and child number; CKDpub fails for every i >= 2^31 and a public "
          "derivation along any path containing a hardened element fails; for any p1 and any non-hardened p2 of any length, private derivation along "
-         "p1++p2 then neutering equals private along p1, neutering, public along p2 (induction, unbounded depth); depth bookkeeping. The driver contains "
+         "p1++p2 then neutering equals private along p1, neutering, public along p2 (induction, unbounded depth); depth bookkeeping; the five spellings of the hardened marker after any digits denote the same child number, the number plus 2^31, and numbers from 2^31 on cannot be hardened (on the executable path-item parser). The driver contains "
          "an independent BIP32 (HMAC-SHA512, secp256k1, HASH160 reference code; BIP32 vector chains) compared with HDKey.from_seed/subkey_for_path/"
          "child_private/child_public on seeds of 16..64 bytes, depths to 8 (20), boundary indices, all five hardened spellings, m/ and M/ prefixes, every "
          "split point with the public part re-imported from its xpub string. Found and fixed through this check: F08."),
